@@ -545,20 +545,33 @@ func (prog Progress) walk_transform_iterateList(n datamodel.Node, s selector.Sel
 				progNext.Path = prog.Path.AppendSegment(ps)
 				if v.Kind() == datamodel.Kind_Link {
 					lnk, _ := v.AsLink()
+					follow := true
 					if prog.Cfg.LinkVisitOnlyOnce {
 						if _, seen := prog.SeenLinks[lnk]; seen {
-							continue
+							follow = false
+						} else {
+							prog.SeenLinks[lnk] = struct{}{}
 						}
-						prog.SeenLinks[lnk] = struct{}{}
 					}
-					progNext.LastBlock.Path = progNext.Path
-					progNext.LastBlock.Link = lnk
-					v, err = progNext.loadLink(lnk, v, n)
-					if err != nil {
-						if _, ok := err.(SkipMe); ok {
-							continue
+					if follow {
+						progNext.LastBlock.Path = progNext.Path
+						progNext.LastBlock.Link = lnk
+						loaded, err := progNext.loadLink(lnk, v, n)
+						if err == nil {
+							v = loaded
+						} else if _, ok := err.(SkipMe); ok {
+							follow = false
+						} else {
+							return nil, err
 						}
-						return nil, err
+					}
+					if !follow {
+						// A link that is not followed (seen before, or skipped by the loader) stays in place as it is;
+						// it is not dropped from the result.
+						if err := lstBldr.AssembleValue().AssignNode(v); err != nil {
+							return nil, err
+						}
+						continue
 					}
 				}
 
@@ -612,20 +625,33 @@ func (prog Progress) walk_transform_iterateMap(n datamodel.Node, s selector.Sele
 				progNext.Path = prog.Path.AppendSegment(ps)
 				if v.Kind() == datamodel.Kind_Link {
 					lnk, _ := v.AsLink()
+					follow := true
 					if prog.Cfg.LinkVisitOnlyOnce {
 						if _, seen := prog.SeenLinks[lnk]; seen {
-							continue
+							follow = false
+						} else {
+							prog.SeenLinks[lnk] = struct{}{}
 						}
-						prog.SeenLinks[lnk] = struct{}{}
 					}
-					progNext.LastBlock.Path = progNext.Path
-					progNext.LastBlock.Link = lnk
-					v, err = progNext.loadLink(lnk, v, n)
-					if err != nil {
-						if _, ok := err.(SkipMe); ok {
-							continue
+					if follow {
+						progNext.LastBlock.Path = progNext.Path
+						progNext.LastBlock.Link = lnk
+						loaded, err := progNext.loadLink(lnk, v, n)
+						if err == nil {
+							v = loaded
+						} else if _, ok := err.(SkipMe); ok {
+							follow = false
+						} else {
+							return nil, err
 						}
-						return nil, err
+					}
+					if !follow {
+						// A link that is not followed (seen before, or skipped by the loader) stays in place as it is;
+						// it is not dropped from the result.
+						if err := mapBldr.AssembleValue().AssignNode(v); err != nil {
+							return nil, err
+						}
+						continue
 					}
 				}
 
